@@ -174,7 +174,12 @@ def correspond_comp(ctx, model, search, tag, case, pyval, tokens_equal):
             _, a, b = _first_diff(impl, ans[key], tokens_equal)
             ctx.disagree(f"C07.comp.{what}", case, a, b)
             return
-    impl_fit = Identifier([search, model] + ([tag] if tag is not None else [])).hash_list
+    fit = [search, model] + ([tag] if tag is not None else [])
+    impl_fit = Identifier(fit).hash_list
+    if case.get("label") != "replay":
+        r = correspond_join(ctx, fit, case)
+        if r is not None:
+            note_fit(ctx, {k: case.get(k) for k in ("program", "search", "tag")}, *r)
     if not tokens_equal(impl_fit, ans["fit"]):
         _, a, b = _first_diff(impl_fit, ans["fit"], tokens_equal)
         ctx.disagree("C07.comp.fit", case, a, b)
@@ -182,3 +187,72 @@ def correspond_comp(ctx, model, search, tag, case, pyval, tokens_equal):
     real_ids = sorted({int(p.id) for p in model.priors})
     if sorted(set(ans["prior_ids"])) != real_ids:
         ctx.disagree("C07.comp.prior-ids", case, real_ids, sorted(set(ans["prior_ids"])))
+
+
+# ---------------------------------------------------------------------------------------------
+# the text that is hashed (lean/AFModel/IdentJoin.lean)
+
+
+def correspond_join(ctx, obj, case):
+    """`".".join(hash_list)` and its md5 against the model's join of the same tokens; the dot-free pieces"""
+    import hashlib
+
+    ident = Identifier(obj)
+    hl = list(ident.hash_list)
+    ans = ctx.lean.ask({"p": "C07", "kind": "join", "tokens": hl})
+    if "driver_error" in ans:
+        ctx.disagree("driver-join", case, None, ans)
+        return None
+    ctx.hit("join-compared")
+    text = ".".join(hl)
+    if ans["joined"] != text or hashlib.md5(ans["joined"].encode("utf-8")).hexdigest() != str(ident):
+        ctx.disagree("C07.join.text", case, {"text": text[-80:], "id": str(ident)}, {"text": ans["joined"][-80:]})
+    pieces = [p for t in hl for p in t.split(".")]
+    if ans["pieces"] != pieces:
+        ctx.disagree("C07.join.pieces", case, pieces[-12:], ans["pieces"][-12:])
+    if ans["dotfree"] != all("." not in t for t in hl):
+        ctx.disagree("C07.join.dotfree", case, not ans["dotfree"], ans["dotfree"])
+    return str(ident), hl, ans["pieces"]
+
+
+def note_fit(ctx, case, ident, hl, pieces):
+    """across all fits met in a run: the same identifier for different token lists is a collision (two different
+    fits claiming the same output) - through the join when the pieces coincide (join_eq_iff_pieces)"""
+    seen = ctx.__dict__.setdefault("_c07_seen_fits", {})
+    old = seen.setdefault(ident, (hl, case))
+    if old[0] != hl:
+        through_join = [p for t in old[0] for p in t.split(".")] == pieces
+        ctx.fail("C07-join-ambiguous" if through_join else "C07-md5-collision",
+                 "two fits with different token lists have the same identifier", {"label": "collision", "a": old[1], "b": case},
+                 {"identifier": ident, "tokens_a": old[0][-8:], "tokens_b": hl[-8:]})
+
+
+def _fit_of(spec, mk_search):
+    import gen_comp
+
+    model = gen_comp.run_program(spec["program"])["root"]
+    search = mk_search(spec.get("search") or {"cls": "LBFGS", "kw": {}, "extra": {}})
+    tag = spec.get("tag")
+    return [search, model] + ([tag] if tag is not None else [])
+
+
+def join_collisions(ctx, mk_search):
+    """corpus/C07/pairs/*.json: pairs of different fits; the property says their identifiers differ"""
+    import json
+    from common import VERIF
+
+    for f in sorted((VERIF / "corpus" / "C07" / "pairs").glob("*.json")):
+        pair = json.loads(f.read_text())
+        case = {"label": "pair:" + f.name, "a": pair["a"], "b": pair["b"]}
+        fa, fb = _fit_of(pair["a"], mk_search), _fit_of(pair["b"], mk_search)
+        ra, rb = correspond_join(ctx, fa, case), correspond_join(ctx, fb, case)
+        if ra is None or rb is None:
+            continue
+        ctx.hit("pair-compared")
+        if ra[1] == rb[1]:
+            ctx.disagree("C07.pair-not-different", case, ra[1][-8:], rb[1][-8:])
+            continue
+        if ra[0] == rb[0]:
+            ctx.fail(pair.get("classifier", "C07-join-ambiguous") if ra[2] == rb[2] else "C07-md5-collision",
+                     "two different fits have the same identifier: " + pair.get("note", ""), case,
+                     {"identifier": ra[0], "tokens_a": ra[1][-8:], "tokens_b": rb[1][-8:]})
